@@ -31,8 +31,9 @@ def check(ctx: Ctx) -> str:
     s = ast.unparse(vt.node)
     ctx.check("debug_kv_str = '&'.join((f'{k}={v}' for k, v in self.debug_info))" in s and "debug_info = {debug_kv_str!r}" in s, "writer:format", "compiler:CodeGenerator.visit_Template", "debug_info serialisation", "debug_info must be written as '&'-joined k=v pairs", vt.loc())
     di = repo.func("environment:Template.debug_info")
-    s = ast.unparse(di.node)
-    ctx.check("x.split('=')" in s and "self._debug_info.split('&')" in s and "map(int" in s, "reader:format", "environment:Template.debug_info", "debug_info parsing", "Template.debug_info must split on '&' and '=' and convert to int", di.loc())
+    comps = [c for c in ast.walk(di.node) if isinstance(c, (ast.ListComp, ast.GeneratorExp)) and len(c.generators) == 1 and ast.unparse(c.generators[0].iter) == "self._debug_info.split('&')"]
+    rd_ok = len(comps) == 1 and ast.unparse(comps[0].elt).replace(ast.unparse(comps[0].generators[0].target), "x") == "tuple(map(int, x.split('=')))"
+    ctx.check(rd_ok, "reader:format", "environment:Template.debug_info", "debug_info parsing", "Template.debug_info must split on '&' and '=' and convert to int", di.loc())
     wr = repo.func("compiler:CodeGenerator.write")
     s = ast.unparse(wr.node)
     ctx.check("self.debug_info.append((self._write_debug_info, self.code_lineno))" in s, "writer:pair-order", "compiler:CodeGenerator.write", "pair order", "entries must be (template line, generated line)", wr.loc())
